@@ -177,6 +177,10 @@ func outcome(tag, out string, ctx context.Context) (any, error) {
 		return nil, errors.New("tag=" + tag + " plain failure")
 	case out == "err:baddata": // an *Error whose data is not valid JSON: it cannot be encoded as it stands
 		return nil, &jrpc2.Error{Code: 7, Message: "tag=" + tag + " failed", Data: json.RawMessage(`{"bad":`)}
+	case out == "rawbad": // a result the handler encoded itself - badly: the reply says so (an internal error), it is not passed on
+		return json.RawMessage(`{"tag":"` + tag + `","a":}`), nil
+	case out == "rawok": // a result the handler encoded itself: passed on as a value of its own
+		return json.RawMessage(" {\"tag\" :\t\"" + tag + "\" }\n"), nil
 	case strings.HasPrefix(out, "err:"):
 		n, _ := strconv.Atoi(out[4:])
 		return nil, jrpc2.Errorf(jrpc2.Code(n), "tag=%s failed", tag)
